@@ -3,6 +3,9 @@ package c14
 
 import (
 	"bytes"
+	"crypto/ecdsa"
+	"crypto/ed25519"
+	"crypto/elliptic"
 	"crypto/x509"
 	"encoding/binary"
 	"encoding/pem"
@@ -42,6 +45,16 @@ import (
 func TestMain(m *testing.M) {
 	sandbox.MaybeWorker()
 	os.Exit(m.Run())
+}
+
+// detRand is a deterministic entropy source for throw-away non-RSA keys.
+type detRand struct{}
+
+func (detRand) Read(p []byte) (int, error) {
+	for i := range p {
+		p[i] = byte(i*7 + 3)
+	}
+	return len(p), nil
 }
 
 // failingReader always fails with an error that is not io.EOF.
@@ -301,7 +314,11 @@ func validFor(t *rapid.T, entry string) []byte {
 	case "descriptor":
 		var ts [16]byte
 		copy(ts[:], gen.FillBytes(t, 16))
-		return append(authvar.EncodeAuth2(ts, 0x0200, 0x0ef1, authvar.PKCS7GUID, gen.SizedBytes(300, 0, 1).Draw(t, "cd")), esl.Encode(gen.ESLStream(2).Draw(t, "payload"))...)
+		ct := authvar.PKCS7GUID
+		if rapid.Bool().Draw(t, "othercerttype") {
+			ct = gen.GUID().Draw(t, "certtype") // e.g. EFI_CERT_TYPE_RSA2048_SHA256_GUID: structurally fine, another type
+		}
+		return append(authvar.EncodeAuth2(ts, 0x0200, 0x0ef1, ct, gen.SizedBytes(300, 0, 1).Draw(t, "cd")), esl.Encode(gen.ESLStream(2).Draw(t, "payload"))...)
 	case "wincert":
 		return authvar.EncodeWinCert(0x0200, rapid.SampledFrom([]uint16{2, 0x0ef0, 0x0ef1}).Draw(t, "wt"), gen.SizedBytes(300, 0, 16, 17).Draw(t, "body"))
 	case "loadoption", "devicepath", "bootentry_var":
@@ -348,12 +365,16 @@ func validFor(t *rapid.T, entry string) []byte {
 	case "readkey", "readcert":
 		// one or several PEM blocks in any order (a combined key + certificate file), with text around them
 		k, _ := x509.MarshalPKCS8PrivateKey(gen.Keys()[rapid.IntRange(0, 1).Draw(t, "k")])
-		blocks := [][]byte{pemOf("PRIVATE KEY", k), pemOf("CERTIFICATE", gen.FixedIdents()[0].Cert.Raw), pemOf("CERTIFICATE", gen.FixedIdents()[1].Cert.Raw), pemOf("X509 CRL", []byte{1, 2, 3}), []byte("some text\n"), []byte("-----BEGIN CERTIFICATE-----\nnot base64\n-----END CERTIFICATE-----\n")}
+		ek, _ := ecdsa.GenerateKey(elliptic.P256(), detRand{})
+		ekd, _ := x509.MarshalPKCS8PrivateKey(ek)
+		_, edk, _ := ed25519.GenerateKey(detRand{})
+		edd, _ := x509.MarshalPKCS8PrivateKey(edk)
+		blocks := [][]byte{pemOf("PRIVATE KEY", k), pemOf("PRIVATE KEY", ekd), pemOf("PRIVATE KEY", edd), pemOf("RSA PRIVATE KEY", x509.MarshalPKCS1PrivateKey(gen.Keys()[0])), pemOf("CERTIFICATE", gen.FixedIdents()[0].Cert.Raw), pemOf("CERTIFICATE", gen.FixedIdents()[1].Cert.Raw), pemOf("X509 CRL", []byte{1, 2, 3}), []byte("some text\n"), []byte("-----BEGIN CERTIFICATE-----\nnot base64\n-----END CERTIFICATE-----\n")}
 		var out []byte
 		if entry == "readkey" {
-			out = append(out, blocks[0]...)
+			out = append(out, blocks[rapid.IntRange(0, 3).Draw(t, "keykind")]...)
 		} else {
-			out = append(out, blocks[1]...)
+			out = append(out, blocks[4]...)
 		}
 		if rapid.Bool().Draw(t, "multiblock") {
 			out = nil
